@@ -42,6 +42,54 @@ def _cases(rng, tier):
     return out
 
 
+def incell_cases(ctx, rng, tier):
+    """polygons lying entirely inside one cell, off-centre (a slab between two adjacent centre-to-vertex rays), at all
+    latitudes including near the poles, and thin east-west / north-south strips inside a cell"""
+    out = []
+    n = 14 if tier == "quick" else 150
+    pts = []
+    for k in range(n):
+        lat = rng.choice([rng.uniform(-1.45, -0.9), rng.uniform(-0.9, 0.9), rng.uniform(0.9, 1.45)])
+        pts.append((lat, rng.uniform(-3.1, 3.1), rng.randrange(1, 13)))
+    a = ctx.c([f"ll2c {f2bits(la)} {f2bits(ln)} {r}" for la, ln, r in pts], tag="incell")
+    cells = [int(x.split()[1], 16) for x in a if ok(x)]
+    g = ctx.c([y for h in cells for y in (f"boundary {gen.hx(h)}", f"c2ll {gen.hx(h)}")], tag="incell2")
+    for i, h in enumerate(cells):
+        ab, ac = g[2 * i], g[2 * i + 1]
+        if not (ok(ab) and ok(ac)):
+            continue
+        c = (bits2f(ac.split()[1]), bits2f(ac.split()[2]))
+        bd = [(la, pu.shift_near(ln, c[1])) for la, ln in parse_boundary(ab)]
+        if max(abs(la) for la, _ in bd) > 1.5 or max(abs(ln - c[1]) for _, ln in bd) > 1.0:
+            continue
+        res = (h >> 52) & 15
+        j = rng.randrange(len(bd))
+        v0, v1 = bd[j], bd[(j + 1) % len(bd)]
+        mode = rng.randrange(3)
+        if mode == 0:      # slab between two adjacent rays
+            t0, t1 = rng.uniform(0.1, 0.3), rng.uniform(0.6, 0.85)
+            quad = [(c[0] + t * (v[0] - c[0]), c[1] + t * (v[1] - c[1])) for v, t in ((v0, t0), (v0, t1), (v1, t1), (v1, t0))]
+        else:              # thin strip along the chord between two next-but-one vertices (the most east-west / north-south one):
+            # as long as a polygon inside a cell can get without containing the cell centre
+            nb_ = len(bd)
+            best, bestv = 0, -1.0
+            for jj in range(nb_):
+                a_, b_ = bd[jj], bd[(jj + 2) % nb_]
+                val = abs(b_[1] - a_[1]) if mode == 1 else abs(b_[0] - a_[0])
+                if val > bestv:
+                    best, bestv = jj, val
+            a_, b_ = bd[best], bd[(best + 2) % nb_]
+            P = (c[0] + 0.9 * (a_[0] - c[0]), c[1] + 0.9 * (a_[1] - c[1]))
+            Q = (c[0] + 0.9 * (b_[0] - c[0]), c[1] + 0.9 * (b_[1] - c[1]))
+            P2 = (P[0] + 0.06 * (c[0] - P[0]), P[1] + 0.06 * (c[1] - P[1]))
+            Q2 = (Q[0] + 0.06 * (c[0] - Q[0]), Q[1] + 0.06 * (c[1] - Q[1]))
+            quad = [P, Q, Q2, P2]
+        loops = [[(la, gen.norm_lng(ln)) for la, ln in quad]]
+        qc = (sum(p[0] for p in quad) / 4, gen.norm_lng(sum(p[1] for p in quad) / 4))
+        out.append((loops, qc[0], qc[1], EDGE[res], res, "in-cell-%d" % mode))
+    return out
+
+
 def streams(rng, tier):
     ops = [f"polyflags {f}" for f in list(range(0, 40)) + [255, 256, 65536, 2 ** 31, 2 ** 32 - 1, 16, 17, 18, 19]]
     return [("flags", ops)]
@@ -70,7 +118,7 @@ def evaluate(ctx, rng, tier, focus, budget, broken):
     nops = 0
     nclass = {"full_must": 0, "full_mustnot": 0, "over_must": 0, "over_mustnot": 0}
     nprims = [0]
-    for (loops, lat, lng, radius, res, kind) in _cases(rng, tier):
+    for (loops, lat, lng, radius, res, kind) in _cases(rng, tier) + incell_cases(ctx, rng, tier):
         ps = gen.poly_str(loops)
         cand = candidates(ctx, lat, lng, radius, res, None)
         if cand is None or len(cand) > 4000:
